@@ -321,7 +321,8 @@ PROPS["C10"] = dict(
     ],
     rule="Domains: every IDN TLD row of the table in U- and A-form x 10 placements; single code points of 11 script ranges (Cyrillic lower/upper, "
          "Greek, Han, Hangul, Arabic, Hebrew, Devanagari, Latin-1, full-width Latin, Hiragana) x 5 placements; labels of 1-64 characters per script "
-         "(A-label crossing the 63 limit); 30 invalid or mapped forms (disallowed code points, ZWJ, hyphen rules, fake A-labels, malformed UTF-8, "
+         "(A-label crossing the 63 limit); 2-6 labels of 10-63 characters per script under 3 TLDs (UTF-8 spelling of 150-1200 octets, crossing 253/255 "
+         "independently of the A-label form); 30 invalid or mapped forms (disallowed code points, ZWJ, hyphen rules, fake A-labels, malformed UTF-8, "
          "bidi violations, sharp s / final sigma); grammar-based random IDN and ASCII host names (1-4 labels, mixed scripts, case variants); the "
          "repository corpus and data/tld-domains.txt. Non-trivial = a real conversion happened (U differs from A) or the IDN library refuses the "
          "domain; distinct by domain hash.",
@@ -449,7 +450,7 @@ PROPS["C06"] = dict(
          "entry point (eav_is_email in 4 modes x tld_check {0,1}, is_<mode>_email, all per-part validators on the whole string and on both "
          "halves) in the default and EAV_EXTRA builds under ASan+UBSan+LSan, with the raw eav_t block pre-filled with three patterns before eav_init. "
          "valgrind memcheck replays generated inputs in an uninstrumented build with eav_t from malloc; callgrind measures instruction counts of "
-         "19 entry points x 16 shapes x sizes up to 64 KiB. Non-trivial = the input reaches the domain stage (non-empty text on both sides of "
+         "19 entry points x 22 shapes (incl. adversaries for the span sets '0.', hex digits, ':') x sizes up to 64 KiB. Non-trivial = the input reaches the domain stage (non-empty text on both sides of "
          "'@') or is >= 1 KiB, or is a work measurement with n >= 4096; distinct by input hash.",
     assumptions=["allocation failure inside libeav is excluded by the statement", "reads inside the caller's string but outside [start,end) are allowed by the statement",
                  "linear time: I(2n)-I(0) <= 2.5 (I(n)-I(0)) + 40 n + 1e4 and I(n)-I(0) <= 1000 n + 1e5 instructions, with the IDN converter replaced by a pass-through so that libidn2's own cost is not attributed to libeav",
